@@ -10,5 +10,5 @@ for s in "${@:-1}"; do
   out=$(VERIF_REPO="$wt" ./check "$id" --seed "$s" ${TIER:+--tier $TIER} 2>&1); rc=$?
   echo "$name $id seed=$s rc=$rc $(echo "$out" | grep -E '^(OK|VIOLATION)' | head -1 | cut -c1-80)"
 done
-rm -f /verif/.cache/bin/*.$(echo -n "$wt" | sha256sum | cut -c1-8).test
+tag=$(echo -n "$wt" | sha256sum | cut -c1-8); rm -f /verif/.cache/bin/*.$tag.test; rm -rf /verif/.cache/out/*-$tag /verif/.cache/alt-$tag.mod /verif/.cache/alt-$tag.sum
 git -C /repo worktree remove --force "$wt"
